@@ -7,7 +7,7 @@ Abstraction: a request limit is either empty (`none`) or one atom set that limit
 resource families at once (atoms are AS + v4 + v6 triples).  Import-free.
 -/
 import KrillModel.Ca.Keys
-namespace KM.Ca
+namespace KM.CaK
 open KM.Res
 
 /-- `RequestResourceLimit`: `none` = `is_empty()`. -/
@@ -65,4 +65,4 @@ example :
     issueCert (.active ⟨1, { res := [1, 2, 3] }, false⟩) [2, 3, 4] (some [4]) 7 = .error .limit ∧
     issueCert (.pending ⟨1, true⟩) [2] none 7 = .error .noCurrentKey := by decide
 
-end KM.Ca
+end KM.CaK
